@@ -1984,7 +1984,7 @@ SRC_THEOREMS = ['GV.C20Src.' + t for t in (
     'loop2_eq', 'toShapefile_eq', 'shpGetDt_range', 'filter_eq_dictDel', 'rloop2_step', 'rloop2_eq', 'rloop1_step', 'rloop1_eq',
     'convLit_eq', 'fromShapefile_eq', 'toP_get', 'strSet_keys', 'toGeopandas_eq',
     'gpdGetDt_range', 'propFields_contains', 'gloop1_step', 'gloop1_eq', 'fromGeopandas_eq',
-    'tiToFastkml_eq', 'toFastkmlPlacemark_eq', 'toFastkmlFolder_eq', 'kml_roundtrip_partial_src', 'tiFromFastkml_eq', "filter_eq_dictDel'",
+    'tiToFastkml_eq', 'toFastkmlPlacemark_eq', 'toFastkmlFolder_eq', 'kml_roundtrip_partial_src', 'tiFromFastkml_eq', "filter_eq_dictDel'", 'dictDel_comm',
     'srcReadShp_eq', 'srcFromGeopandas_eq', 'shp_roundtrip_partial_src', 'gpd_roundtrip_partial_src')]
 
 
